@@ -127,8 +127,11 @@ def body_retarr(pattern):
         if codec.MODEL:
             Tags.reset()
         addr = inp.bv("address", 32, True)
-        vals = [inp.bv(f"v{i}", 32, True) if d else None for i, d in enumerate(pattern)]
+        # pattern entry: True = symbolic defined entry, False = undefined, an int = that concrete value (long arrays)
+        vals = [(inp.bv(f"v{i}", 32, True) if d is True else None if d is False else int(d)) for i, d in enumerate(pattern)]
         site = {"msg": "ReturnArrayMessage"}
+        if len(pattern) > 8:
+            site["long"] = True
         back, err = _guard(lambda: M.deserialize_return_msg(bytes(M.ReturnArrayMessage(address=addr, values=list(vals)))),
                            "roundtrip_raises", site)
         if err:
@@ -190,10 +193,18 @@ def bodies(tier):
     for n in range(maxlen + 1):
         for pat in itertools.product((True, False), repeat=n):
             out.append((("retarr", list(pat)), body_retarr(pat)))
+    # element counts around the byte and 16-bit boundaries of the length field (declared 32 bit)
+    for n in ((255, 256, 257, 65535, 65536, 65537) if tier == "thorough" else (255, 256, 257)):
+        out.append((("retarrlong", n), None))
     out.append((("subroutine", "vanilla", ["SetInstruction", "RotXInstruction"]), body_subroutine("vanilla", ["SetInstruction", "RotXInstruction"])))
     out.append((("subroutine", "nv", ["WaitAllInstruction"]), body_subroutine("nv", ["WaitAllInstruction"])))
     out.append((("subroutine", "vanilla", []), body_subroutine("vanilla", [])))
     return out
+
+
+def long_pattern(n):
+    """n entries: symbolic / undefined at both ends, concrete values in between (the element count is what matters here)"""
+    return (True, False) + (7,) * (n - 4) + (False, True)
 
 
 def body_from_key(key):
@@ -208,6 +219,8 @@ def body_from_key(key):
         return body_retreg(key[1])
     if k == "retarr":
         return body_retarr(tuple(key[1]))
+    if k == "retarrlong":
+        return body_retarr(long_pattern(key[1]))
     if k == "subroutine":
         return body_subroutine(key[1], key[2])
     raise KeyError(key)
